@@ -56,7 +56,7 @@ def distances(r):
 
 def plan(tier, seed):
     rs = resolutions(tier, seed)
-    shards = [(r, fp) for r in rs for fp in range(4)] + [("env", r) for r in (1, 7, 192, 480)] + [("order", r, fp) for r in (2, 7, 192) for fp in range(4)]
+    shards = [(r, fp) for r in rs for fp in range(4)] + [("env", r) for r in (1, 7, 192, 480)] + [("order", r, fp) for r in (2, 7, 192) for fp in range(4)] + [("headers", k) for k in range(8)]
     return dict(shards=shards, bounds=dict(resolutions=(rs if len(rs) < 50 else "1..400 + %r" % [r for r in rs if r > 400])), budget_s=1500 if tier == "thorough" else 300)
 
 
@@ -124,6 +124,8 @@ def ordered_lines(t, combo, flags, order):
     OPEN-note line stays outside the domain, DESIGN.md 3.1)."""
     lanes = note_lines(t, combo, ())
     fl = ["%d = N %d 0" % (t, f) for f in flags]
+    if order == "twice":  # a flag written twice is still one flag (the note IS flagged)
+        return lanes + fl + fl[::-1]
     if order == "after" or not combo or not fl:
         return lanes + fl
     if order == "before":
@@ -139,7 +141,7 @@ def _order_shard(ctx, r, fpi):
         for fb in FLAGS:
             if not fa and not fb:
                 continue
-            for order in ("before", "between"):
+            for order in ("before", "between", "twice"):
                 ctx.node()
                 body = note_lines(0, (0,))
                 exp = ["STRUM"]
@@ -158,10 +160,50 @@ def _order_shard(ctx, r, fpi):
                 ctx.hist["flag_order_tracks"] += 1
                 if got != exp:
                     k = next((i for i in range(min(len(exp), len(got))) if got[i] != exp[i]), 0) if isinstance(got, list) and got[:1] != ["raises"] else 0
-                    e1.report(ctx, "decision-packed", text, PROBE_SRC, [exp], got if len(str(got)) < 300 else str(got)[:300], "resolution %d distance %d flags %r/%r with the flag lines written %s the lane lines (first difference at note %d)" % (r, d, fa, fb, order, k))
+                    e1.report(ctx, "decision-packed", text, PROBE_SRC, [exp], got if len(str(got)) < 300 else str(got)[:300], "resolution %d distance %d flags %r/%r with the flag lines written %s the lane lines / twice (first difference at note %d)" % (r, d, fa, fb, order, k))
+
+
+HEADER_PROBE = '''
+def probe(c):
+    return [[i.name, d.name, [e.hopo_state.name for e in t.note_events]] for i, dd in c.instrument_tracks.items() for d, t in dd.items()]
+'''
+
+
+def _header_shard(ctx, k):
+    """The rule is stated for "a track": the full pair table under every one of the 40 section headers."""
+    from ..refmodel import TRACK_HEADERS
+
+    hp = e1.compile_probe(HEADER_PROBE)
+    r = 192
+    thr = (r + 1) // 3
+    gap = 10 * r + 50
+    for header in list(TRACK_HEADERS)[k::8]:
+        ins, dif = TRACK_HEADERS[header]
+        for d in (thr, thr + 1):
+            for fa, fb in (((), ()), ((), (6,)), ((), (5,)), ((), (5, 6)), ((5,), ())):
+                ctx.node()
+                body = note_lines(0, (0,))
+                exp = ["STRUM"]
+                t = gap
+                for a in COMBOS:
+                    for b in COMBOS:
+                        body += note_lines(t, a, fa) + note_lines(t + d, b, fb)
+                        exp += [far_rule(fa), rule(a, fa, b, fb, d, thr)]
+                        t += d + gap
+                text = mk(res=r, tracks={header: body})
+                got = e1.run_probe(hp, text)
+                ctx.executions += 1
+                ctx.node(1024)
+                ctx.evaluations += len(exp)
+                ctx.nontrivial += 1024
+                ctx.hist["header_tracks"] += 1
+                if got != [[ins, dif, exp]]:
+                    e1.report(ctx, "decision-packed", text, HEADER_PROBE, [[[ins, dif, exp]]], got if len(str(got)) < 300 else str(got)[:300], "section [%s], resolution %d distance %d flags %r/%r: states differ from the rule" % (header, r, d, fa, fb))
 
 
 def run_shard(shard, ctx):
+    if shard[0] == "headers":
+        return _header_shard(ctx, shard[1])
     if shard[0] == "env":
         return _env_shard(ctx, shard[1])
     if shard[0] == "order":
